@@ -295,6 +295,13 @@ class WebSocket:
         # NOTE(kgriffs): Only do this after we validate the code, to avoid
         #   masking errors.
         if self.closed:
+            # NOTE: the client may have disconnected while the state still
+            #   says otherwise; record it, as _send() does, so that later
+            #   operations report the disconnect.
+            if self._state != _WebSocketState.CLOSED:
+                self._state = _WebSocketState.CLOSED
+                self._close_code = self._buffered_receiver.client_disconnected_code
+
             return
 
         response = {'type': EventType.WS_CLOSE, 'code': code}
